@@ -145,6 +145,8 @@ class Doc:
                 i = m.end()
             else:
                 m = _STAG.match(t, i)
+                if not m and self.lenient and t.find(">", i) < 0:
+                    break   # the text ends inside a start tag (roxmltree 0.14 accepts that as well): ignore the fragment
                 if not m:
                     raise XmlError("bad start tag at %d" % i)
                 e = El()
